@@ -331,7 +331,8 @@ def run(ctx):
             break
     hh = hists[len(hists) // 2]
     ctx.sample({'kind': 'S->C history (actions, args)', 'steps': [{'act': s['act'], 'args': s['args'], 'ret': s['ret']} for s in hh]})
-
+    from .. import umbrella
+    umbrella.run(ctx, am, 'C06')      # cross-module histories of spec/Atomman.tla (only the steps this property owns are reported here)
 
 def _replay_chunk(hs):
     import atomman as am
